@@ -17,6 +17,12 @@ C={
  'C04':('exploration','structure-aware input mutation under crash, allocation and stability monitors',
         'Mutated encodings (every length field x hostile values, truncations, overwrites, random) are decoded in child processes with a panic monitor, an exact TotalAlloc meter against 256KiB+64B/byte and the decode-encode-decode stability equation; DecodeDir size field swept exhaustively.',
         'trusted: allocation bound constants are an instantiation of "small constant plus linear"; sampled except the 16-bit size sweep'),
+ 'C06':('exploration','scripted-handler conservation monitor over the wire log (exactly-once per (tag, epoch)), race detector',
+        'Scripts of requests, duplicates, bursts and PRNG-ordered completions against the real ServeConn with a gate-controlled Handler; after each stimulus the harness waits for quiescence and checks handler invocations and replies against a conservation monitor: one dispatch with the message sent, one reply with own tag and exactly the handler result or error text, duplicates refused without dispatch.',
+        'trusted: refcodec for wire parsing; quiescence from goroutine states; replies kept within msize'),
+ 'C07':('exploration','gate-script ordering monitor over the wire log, repeated per random server-side choice, race detector',
+        'Nine flush scenarios (cancel honoured/ignored, late completion before/after tag reuse, completion racing the flush in both orders, unknown/own/double flush, immediate reuse) repeated many times; the monitor checks ctx cancellation, exactly one reply per Tflush, silence of the flushed request after the flush reply and that a reused tag is answered with the new request own uid.',
+        'trusted: unique ids in results identify crossed replies; the internal completed-vs-cancelled choice of the server is covered by repetition only'),
  'C08':('exploration','lock-step reference-model monitor (fid-table model) with FS-call log, fid-table hook and quiescence hang detector',
         'Random and systematically enumerated call sequences run on the real SFileSys over an instrumented file system; after every call the outcome, the exact FS calls and the whole fid table (via the verif hook) are compared with a sequential reference model; unreturned calls at quiescence are hangs.',
         'trusted: harness/fsx model (DESIGN App. A) incl. its documented relations; instrumented FS deterministic; hook p9p.VerifFidTable'),
